@@ -72,6 +72,11 @@ def classify_exception(ex: BaseException, tb: str) -> str:
 
 
 def run_one(prog: dict) -> dict:
+    return run_variant(prog, None)
+
+
+def run_variant(prog: dict, variant: Any, keep_outputs: bool = False) -> dict:
+    """variant: None, a tagging spec (ptverif/tagging.py) or "strip"."""
     import pytato as pt
 
     from ptverif import cexec, kernelexport
@@ -95,6 +100,17 @@ def run_one(prog: dict) -> dict:
     if ref0 is None:
         res["status"] = "numpy_rejects"
         return res
+    if variant is not None:
+        from ptverif import tagging
+        try:
+            if variant == "strip":
+                outs = tagging.strip_all(outs)
+            else:
+                outs, res["tag_counts"] = tagging.apply(outs, variant)
+        except Exception as ex:      # noqa: BLE001
+            res["problems"].append({"clause": "tagging_raised", "exc": type(ex).__name__,
+                                    "what": f"{type(ex).__name__}: {ex}"[:300]})
+            return res
 
     def gen(d: dict) -> Any:
         return cexec.generate(pt.make_dict_of_named_arrays(d))
@@ -131,6 +147,9 @@ def run_one(prog: dict) -> dict:
                                     "where": traceback.format_exc().splitlines()[-3][:200]})
             break
         scale = runprog.scale_of(data, values)
+        if keep_outputs and kind == "normal":
+            res["outputs"] = {k: got[k] for k in declared if k in got}
+            res["scale"] = scale
         for name, (shape, dtype) in declared.items():
             if name not in got:
                 res["problems"].append({"clause": "missing_output", "exc": "",
